@@ -555,7 +555,52 @@ func genConc(prop string, seed uint64, tier string) *ConcScenario {
 		}
 	}
 	sc.Strategy = g.strategy(steps + 50)
+	if (prop == "C02" || prop == "C03" || prop == "C04") && g.r.Bool(0.03) {
+		g.storm(sc)
+	}
 	return sc
+}
+
+// storm: a few lookups of one key while several writers overwrite that key
+// dozens of times, under round robin with per-task quanta: the reader is
+// interrupted after every step and whole overwrites happen in between (a
+// lookup must retry as long as the entry keeps changing under it, and must
+// still come back with a value that was stored).
+func (g *genCtx) storm(sc *ConcScenario) {
+	cacheFam := sc.Family == "cache"
+	sc.Phases = sc.Phases[:1]
+	ph := &sc.Phases[0]
+	ph.Tasks, ph.Delays, ph.Stall, ph.Optional = nil, nil, nil, nil
+	key := 0
+	nr := 1 + g.r.Intn(2)
+	for i := 0; i < nr; i++ {
+		var prog []Op
+		for j := 0; j < 1+g.r.Intn(3); j++ {
+			if cacheFam {
+				prog = append(prog, Op{K: CGet, Key: key})
+			} else {
+				prog = append(prog, Op{K: MLoad, Key: key})
+			}
+		}
+		ph.Tasks = append(ph.Tasks, prog)
+	}
+	for i := 0; i < 2+g.r.Intn(2); i++ {
+		var prog []Op
+		for j := 0; j < 10+g.r.Intn(8); j++ {
+			if cacheFam {
+				prog = append(prog, Op{K: CSet, Key: key, Val: g.val(), D: sentinelNoExp})
+			} else {
+				prog = append(prog, Op{K: MStore, Key: key, Val: g.val()})
+			}
+		}
+		ph.Tasks = append(ph.Tasks, prog)
+	}
+	if cacheFam {
+		sc.Setup = append(sc.Setup, Op{K: CSet, Key: key, Val: g.val(), D: sentinelNoExp})
+	} else {
+		sc.Setup = append(sc.Setup, Op{K: MStore, Key: key, Val: g.val()})
+	}
+	sc.Strategy = simrt.StrategyConfig{Kind: "rrq"}
 }
 
 // c05Workload replaces the first phase by racers or an increment chain.
